@@ -144,6 +144,7 @@ func runCB1(c CBCase) ev.Verdict {
 	}
 
 	done := make(chan outcome, 1)
+	start := time.Now()
 
 	go func() {
 		defer func() {
@@ -176,8 +177,11 @@ func runCB1(c CBCase) ev.Verdict {
 			return ev.Fail("error %v, want a timeout error", o.err)
 		}
 
-		if el := end.Sub(last); el < inForce-2*time.Millisecond {
-			return ev.Fail("timed out %v after the last callback; timeout in force %v", el, inForce)
+		// not before any timeout that could be in force has run out, counted from the start of
+		// the send (whether a callback re-arms the timer is the implementation's policy)
+		low := min(inForce, time.Duration(c.TimeoutMS)*time.Millisecond)
+		if el := end.Sub(start); el < low*9/10 {
+			return ev.Fail("timed out %v after the send started; the shortest timeout that can be in force is %v", el, low)
 		}
 
 		// the timeout given to the send (or the callback's next-timeout) is the one in force, not
